@@ -173,3 +173,38 @@ Example spatial_finite_far_apart_b32 :
   finite_frame (spatialize_b32 (fun x => x) (fun x => x) (Z32 1) (Z32 100) false (f32_of_bits 0x3F000000, f32_of_bits 0xBE800000)
                   (V32 0x7F61B1E6 0 0) Q_ID32 (V32 0xFF61B1E6 0 0) (Z32 1)) = true.
 Proof. vm_compute. split; reflexivity. Qed.
+
+(** A spatial track never amplifies: each output channel is bounded by the larger input channel,
+    for every placement, strength (also outside [0,1]), distance range and monotone attenuation curve. *)
+Local Open Scope R_scope.
+Lemma Rabs_scale_le (x k m : R) : 0 <= k <= 1 -> Rabs x <= m -> Rabs (x * k) <= m.
+Proof.
+  intros Hk Hx. rewrite Rabs_mult, (Rabs_right k) by lra.
+  pose proof (Rabs_pos x) as Hp. nra.
+Qed.
+
+Lemma spatialize_never_amplifies p10 ease d sinL cosL sinR cosR dmin dmax atten l r lp lq pos sraw :
+  unitq lq -> ears_ok sinL cosL sinR cosR -> ease_ok ease -> powf10_ok p10 ->
+  exists ol or_,
+    spatialize_R p10 ease d sinL cosL sinR cosR dmin dmax atten (l, r) lp lq pos sraw = Ok (ol, or_) /\
+    Rabs ol <= Rmax (Rabs l) (Rabs r) /\ Rabs or_ <= Rmax (Rabs l) (Rabs r).
+Proof.
+  intros Hu He Hease Hp. rewrite spatialize_product. cbv zeta.
+  set (A := if atten then amp_of_rv p10 (ease (1 - relR dmin dmax (dist lp pos))) else 1).
+  assert (HA : 0 <= A <= 1).
+  { unfold A. destruct atten; [|lra].
+    destruct (attenuation_total p10 ease dmin dmax (dist lp pos) Hease Hp) as (a & Ea & Ha).
+    rewrite attenuation_R_eq in Ea. injection Ea as Ea. rewrite Ea. exact Ha. }
+  destruct (ear_gains_range_clamped d sinL cosL sinR cosR sraw lp lq pos Hu He) as (Hs & HL & HR).
+  cbv zeta in Hs, HL, HR.
+  pose proof (Rmax_l (Rabs l) (Rabs r)) as Ml. pose proof (Rmax_r (Rabs l) (Rabs r)) as Mr.
+  destruct (Reqb (clamp01 sraw) 0).
+  - eexists. eexists. split; [reflexivity|]. split; apply Rabs_scale_le; lra.
+  - eexists. eexists. split; [reflexivity|].
+    assert (Hm : Rabs ((l * A + r * A) / 2) <= Rmax (Rabs l) (Rabs r)).
+    { replace ((l * A + r * A) / 2) with ((l + r) / 2 * A) by field.
+      apply Rabs_scale_le; [exact HA|].
+      pose proof (Rabs_triang l r) as Ht.
+      unfold Rdiv. rewrite Rabs_mult, (Rabs_right (/ 2)) by lra. lra. }
+    split; apply Rabs_scale_le; try exact Hm; lra.
+Qed.
